@@ -2,6 +2,7 @@
 import Driver.Util
 import Mxj.Model.Encode
 import Driver.OpsXml
+import Driver.OpsTok
 namespace Mxj.Drv
 open Mxj Mxj.Proto
 
@@ -23,7 +24,8 @@ def opXenc : P Out := do
     | .error _ => "err")
 
 /-- `xrt deccfg strconv tokens fin enc-escape goEmpty doc` → decode the tokens, encode the
-    decoded Map with the compact encoder: `ok <bytes>` -/
+    decoded Map with the compact encoder: `ok <bytes> | <Map> | tok <tokens of the bytes>` (the
+    model tokenizer on the model's own output) -/
 def opXrt : P Out := do
   let cfg ← pDecCfg; let S ← pStrconv
   let tv ← pVal; let fin ← pFin; let esc ← pBool; let ge ← pBool; let _doc ← pStr; pEnd
@@ -34,7 +36,7 @@ def opXrt : P Out := do
       | .ok (.map m) =>
         let ec : EncCfg := { attrPrefix := cfg.attrPrefix, textK := cfg.textK, escape := esc, goEmpty := ge }
         pure (match mapXml ec m none with
-          | .ok s => "ok " ++ showStr s ++ " | " ++ showVal (.map m)
+          | .ok s => "ok " ++ showStr s ++ " | " ++ showVal (.map m) ++ " | " ++ showTokenize s
           | .error _ => "err encode")
       | o => pure ("dec " ++ showOutcome o)
     | none => throw .bad
